@@ -174,11 +174,19 @@ Proof. split; reflexivity. Qed.
 
 (* ---- told-states stay in canonical form ---- *)
 
+(* one channel: members sorted by nick, each mode stored once *)
+Definition cwf (c : rchan) : Prop := ksorted (rc_members c) /\ NoDup (List.map fst (rc_modes c)).
+
 Record RWf (r : ref) : Prop := mkRWf {
   wf_chans : ksorted (r_chans r);
   wf_users : ksorted (r_users r);
   wf_opts : ksorted (r_opts r);
-  wf_members : forall k c, alookup k (r_chans r) = Some c -> ksorted (rc_members c) }.
+  wf_cwf : forall k c, alookup k (r_chans r) = Some c -> cwf c }.
+
+Lemma wf_members r (W : RWf r) k c : alookup k (r_chans r) = Some c -> ksorted (rc_members c).
+Proof. intros H. apply (wf_cwf _ W _ _ H). Qed.
+Lemma wf_modes r (W : RWf r) k c : alookup k (r_chans r) = Some c -> NoDup (List.map fst (rc_modes c)).
+Proof. intros H. apply (wf_cwf _ W _ _ H). Qed.
 
 Lemma rwf_init : RWf ref_init.
 Proof. constructor; simpl; try apply ksorted_nil. intros; discriminate. Qed.
@@ -192,30 +200,32 @@ Proof. intros Hm [A B C D]. constructor; simpl; assumption. Qed.
 Lemma rwf_set_opts r m : ksorted m -> RWf r -> RWf (r_set_opts r m).
 Proof. intros Hm [A B C D]. constructor; simpl; assumption. Qed.
 
-Lemma rwf_set_chans r m : ksorted m -> (forall k c, alookup k m = Some c -> ksorted (rc_members c)) ->
+Lemma rwf_set_chans r m : ksorted m -> (forall k c, alookup k m = Some c -> cwf c) ->
   RWf r -> RWf (r_set_chans r m).
 Proof. intros Hm Hc [A B C D]. constructor; simpl; assumption. Qed.
 
 Lemma rwf_upd_user r n f : RWf r -> RWf (upd_user r n f).
 Proof. intros W. apply rwf_set_users; [|exact W]. apply ksorted_sm_adjust, (wf_users _ W). Qed.
 
-Lemma rwf_upd_chan r cn f : (forall c, ksorted (rc_members c) -> ksorted (rc_members (f c))) ->
-  RWf r -> RWf (upd_chan r cn f).
+Lemma rwf_upd_chan r cn f : (forall c, cwf c -> cwf (f c)) -> RWf r -> RWf (upd_chan r cn f).
 Proof.
   intros Hf W. apply rwf_set_chans; [apply ksorted_sm_adjust, (wf_chans _ W)| |exact W].
   intros k c. rewrite alookup_sm_adjust. destruct (streqb k (key cn)).
   - destruct (alookup k (r_chans r)) as [c0|] eqn:E; simpl; [|discriminate]. intros H; injection H as <-.
-    apply Hf. apply (wf_members _ W _ _ E).
-  - apply (wf_members _ W).
+    apply Hf. apply (wf_cwf _ W _ _ E).
+  - apply (wf_cwf _ W).
 Qed.
 
-Lemma rwf_map_chans r f : (forall c, ksorted (rc_members c) -> ksorted (rc_members (f c))) ->
+Lemma rwf_map_chans r f : (forall c, cwf c -> cwf (f c)) ->
   RWf r -> RWf (r_set_chans r (sm_map (fun _ c => f c) (r_chans r))).
 Proof.
   intros Hf W. apply rwf_set_chans; [apply ksorted_sm_map, (wf_chans _ W)| |exact W].
   intros k c. rewrite alookup_sm_map. destruct (alookup k (r_chans r)) as [c0|] eqn:E; simpl; [|discriminate].
-  intros H; injection H as <-. apply Hf. apply (wf_members _ W _ _ E).
+  intros H; injection H as <-. apply Hf. apply (wf_cwf _ W _ _ E).
 Qed.
+
+Lemma cwf_set_members c m : cwf c -> ksorted m -> cwf (rc_set_members c m).
+Proof. intros [A B] Hm. split; assumption. Qed.
 
 Lemma rwf_ensure_user r src : RWf r -> RWf (ensure_user r src).
 Proof.
@@ -229,20 +239,43 @@ Proof. intros W. apply rwf_set_users; [|exact W]. apply ksorted_sm_filter, (wf_u
 Lemma rwf_tag r e : RWf r -> RWf (ref_tag r e).
 Proof. intros W. unfold ref_tag. destruct (e_src e); [|exact W]. destruct (e_account_tag e); [|exact W]. apply rwf_upd_user, W. Qed.
 
-Lemma mode_walk_members_sorted cm pm : forall flags args add c,
-  ksorted (rc_members c) -> ksorted (rc_members (mode_walk cm pm flags args add c)).
+Lemma mode_set_keys_in x a l y : In y (List.map fst (mode_set x a l)) <-> y = x \/ In y (List.map fst l).
+Proof.
+  induction l as [|[z b] l IH]; simpl; [intuition|].
+  destruct (z =? x) eqn:E; simpl; [assert (z = x) by lia; subst; intuition|]. rewrite IH. intuition.
+Qed.
+
+Lemma mode_set_nodup x a l : NoDup (List.map fst l) -> NoDup (List.map fst (mode_set x a l)).
+Proof.
+  induction l as [|[z b] l IH]; simpl; intros H.
+  - constructor; [simpl; tauto|constructor].
+  - inversion H as [|? ? Hz Hl]; subst. destruct (z =? x) eqn:E; simpl.
+    + assert (z = x) by lia. subst. constructor; assumption.
+    + constructor; [|apply IH, Hl]. rewrite mode_set_keys_in. intros [->|Hin]; [lia|contradiction].
+Qed.
+
+Lemma mode_unset_nodup x l : NoDup (List.map fst l) -> NoDup (List.map fst (mode_unset x l)).
+Proof.
+  induction l as [|[z b] l IH]; simpl; intros H; [constructor|].
+  inversion H as [|? ? Hz Hl]; subst. destruct (z =? x); simpl; [apply IH, Hl|].
+  constructor; [|apply IH, Hl]. intros Hin. apply Hz. unfold mode_unset in Hin.
+  apply in_map_iff in Hin. destruct Hin as ([y c] & Hy & Hin). apply filter_In in Hin. destruct Hin as [Hin _].
+  simpl in Hy. subst y. apply (in_map fst) in Hin. exact Hin.
+Qed.
+
+Lemma mode_walk_cwf cm pm : forall flags args add c, cwf c -> cwf (mode_walk cm pm flags args add c).
 Proof.
   induction flags as [|f fs IH]; intros args add c Hc; simpl; [exact Hc|].
   destruct (f =? 43); [apply IH, Hc|]. destruct (f =? 45); [apply IH, Hc|].
-  destruct (mode_class cm pm f); try destruct add; apply IH; simpl; try exact Hc.
-  - apply ksorted_sm_adjust, Hc.
-  - apply ksorted_sm_adjust, Hc.
+  destruct Hc as [Hm Hn].
+  destruct (mode_class cm pm f); try destruct add; apply IH; split; simpl;
+    first [exact Hm | exact Hn | apply mode_set_nodup, Hn | apply mode_unset_nodup, Hn | apply ksorted_sm_adjust, Hm].
 Qed.
 
 Lemma rwf_names_entry chan r en : RWf r -> RWf (ref_names_entry chan r en).
 Proof.
   intros W. unfold ref_names_entry. destruct (span_syms en) as [syms body]. destruct body as [|b0 body]; [exact W|].
-  apply rwf_upd_chan; [|apply rwf_ensure_user, W]. intros c Hc. simpl. apply ksorted_sm_set, Hc.
+  apply rwf_upd_chan; [|apply rwf_ensure_user, W]. intros c Hc. apply cwf_set_members; [exact Hc|]. apply ksorted_sm_set, Hc.
 Qed.
 
 Lemma rwf_names_fold chan : forall l r, RWf r -> RWf (fold_left (ref_names_entry chan) l r).
@@ -262,11 +295,12 @@ Proof.
   { unfold r1. destruct (alookup (key chan) (r_chans r)); [exact W|].
     apply rwf_set_chans; [apply ksorted_sm_set, (wf_chans _ W)| |exact W].
     intros k c. rewrite alookup_sm_set by apply (wf_chans _ W). destruct (streqb k (key chan)).
-    - intros H; injection H as <-. simpl. apply ksorted_nil.
-    - apply (wf_members _ W). }
+    - intros H; injection H as <-. split; simpl; [apply ksorted_nil|constructor].
+    - apply (wf_cwf _ W). }
   assert (W3 : RWf (upd_chan (upd_user (ensure_user r1 src) (s_name src) (ext_join rest)) chan (add_member (key (s_name src))))).
   { apply rwf_upd_chan; [|apply rwf_upd_user, rwf_ensure_user, W1].
-    intros c Hc. unfold add_member. destruct (alookup (key (s_name src)) (rc_members c)); [exact Hc|]. simpl. apply ksorted_sm_set, Hc. }
+    intros c Hc. unfold add_member. destruct (alookup (key (s_name src)) (rc_members c)); [exact Hc|].
+    apply cwf_set_members; [exact Hc|]. apply ksorted_sm_set, Hc. }
   destruct (is_me r (s_name src)); [|exact W3]. eapply rwf_scalar; [| | |exact W3]; reflexivity.
 Qed.
 
@@ -274,8 +308,8 @@ Lemma rwf_leave r chan nick : RWf r -> RWf (ref_leave r chan nick).
 Proof.
   intros W. unfold ref_leave. destruct (is_me r nick).
   - apply rwf_set_chans; [apply ksorted_sm_del, (wf_chans _ W)| |exact W].
-    intros k c. rewrite alookup_sm_del by apply (wf_chans _ W). destruct (streqb k (key chan)); [discriminate|]. apply (wf_members _ W).
-  - apply rwf_upd_chan; [|exact W]. intros c Hc. simpl. apply ksorted_sm_del, Hc.
+    intros k c. rewrite alookup_sm_del by apply (wf_chans _ W). destruct (streqb k (key chan)); [discriminate|]. apply (wf_cwf _ W).
+  - apply rwf_upd_chan; [|exact W]. intros c Hc. apply cwf_set_members; [exact Hc|]. apply ksorted_sm_del, Hc.
 Qed.
 
 Lemma rwf_nick r old new : RWf r -> RWf (ref_nick r old new).
@@ -287,8 +321,8 @@ Proof.
   assert (W2 : RWf (r_set_users r1 (sm_set (key new) (ru_set_nick u new) (sm_del (key old) (r_users r1))))).
   { apply rwf_set_users; [|exact W1]. apply ksorted_sm_set, ksorted_sm_del, (wf_users _ W1). }
   apply (rwf_map_chans _ (rename_member (key old) (key new))) in W2; [exact W2|].
-  intros c Hc. unfold rename_member. destruct (alookup (key old) (rc_members c)); [|exact Hc]. simpl.
-  apply ksorted_sm_set, ksorted_sm_del, Hc.
+  intros c Hc. unfold rename_member. destruct (alookup (key old) (rc_members c)); [|exact Hc].
+  apply cwf_set_members; [exact Hc|]. apply ksorted_sm_set, ksorted_sm_del, Hc.
 Qed.
 
 Lemma rwf_cmd r e : RWf r -> RWf (ref_cmd r e).
@@ -300,15 +334,15 @@ Proof.
   destruct (cmdb e c_KICK). { destruct (e_params e) as [|a [|b l]]; try exact W. apply rwf_leave, W. }
   destruct (cmdb e c_QUIT).
   { destruct (e_src e); [|exact W]. apply (rwf_map_chans _ (drop_member (key (s_name s)))); [|exact W].
-    intros c Hc. simpl. apply ksorted_sm_del, Hc. }
+    intros c Hc. apply cwf_set_members; [exact Hc|]. apply ksorted_sm_del, Hc. }
   destruct (cmdb e c_NICK). { destruct (e_src e); [|exact W]. destruct (e_params e); [exact W|]. apply rwf_nick, W. }
   destruct (cmdb e c_353).
   { destruct (e_params e) as [|a [|b [|c l]]]; try exact W. unfold ref_names. destruct (tracked_chan r c); [|exact W].
     apply rwf_names_fold, W. }
   destruct (cmdb e c_MODE).
-  { destruct (e_params e) as [|a [|b l]]; try exact W. apply rwf_upd_chan; [|exact W]. intros c. apply mode_walk_members_sorted. }
+  { destruct (e_params e) as [|a [|b l]]; try exact W. apply rwf_upd_chan; [|exact W]. intros c. apply mode_walk_cwf. }
   destruct (cmdb e c_324).
-  { destruct (e_params e) as [|a [|b [|c l]]]; try exact W. apply rwf_upd_chan; [|exact W]. intros c0. apply mode_walk_members_sorted. }
+  { destruct (e_params e) as [|a [|b [|c l]]]; try exact W. apply rwf_upd_chan; [|exact W]. intros c0. apply mode_walk_cwf. }
   destruct (cmdb e c_TOPIC).
   { destruct (e_params e) as [|a [|b [|c l]]]; try exact W. apply rwf_upd_chan; [|exact W]. intros c0 H; exact H. }
   destruct (cmdb e c_332).
